@@ -124,6 +124,17 @@ PROPS = {
             dict(name="TestEnumOptionOrders", quick=1, thorough=1, shards_thorough=1, rapid=False),
         ],
     ),
+    "C13": dict(
+        pkg="c13", level="fault_enumeration",
+        technique="fault-sequence generation (rapid): every publish of a run tagged with a failure kind injected through a wrapper store, oracle = delivery/report/attempt counts and final log audit",
+        level_text="Generated patterns of failing and succeeding persistence over runs of up to 30 publishes (unencodable events, rejected appends, timeouts via a store that blocks until the persistence context ends, closed SQLite store), including failures on the first publish of a fresh bus and consecutive failures; counts of deliveries, reports and Append attempts and the final log are compared with the pattern.",
+        level_note="Timeouts are real 2 ms contexts that the blocking wrapper waits for, so no timing assumption is involved.",
+        assumptions=COMMON_ASSUME + ["the wrapper store sees every Append attempt of the bus"],
+        tests=[
+            dict(name="TestFailuresMemory", quick=1200, thorough=15000, shards_thorough=12),
+            dict(name="TestFailuresSQLite", quick=200, thorough=2500, shards_thorough=4, shrinktime="15s"),
+        ],
+    ),
 }
 
 HOOK_COMMITS = ["99604d0"]
